@@ -37,6 +37,10 @@ def main(argv):
         o = r.obl
         if o.kind == 'V' and o.meta.get('expect') == 'sat':
             ok = 'sat' in groups[o.meta.get('group', o.name)] or r.verdict == 'unknown'
+        elif o.kind == 'K':
+            ok = True
+            if r.verdict == 'sat':
+                print('  KNOWN   %s (finding %s)' % (o.name, o.meta.get('finding')))
         else:
             ok = r.verdict == 'unsat'
         if not ok:
